@@ -78,6 +78,8 @@ def describe(v, facts=None, depth=0):
         return "&" + str(v[1][1] if v[1][0] == "H" else "local")
     if k == "closure":
         return "closure"
+    if k == "seq":
+        return "[" + ",".join(describe(x, facts, depth + 1) for x in v[2]) + "]"
     if k == "adt":
         name = str(v[2])
         path = v[1]
@@ -104,6 +106,7 @@ class Interp:
         self.f = facts
         self.inline = set(inline)
         self._polling = False
+        self._consts = {}
         # trait method path -> the body of its (single) implementation, for calls on a generic Self
         self.bind = dict(bind or {})
         self.oracle = oracle or (lambda *a: None)
@@ -203,7 +206,20 @@ class Interp:
             return copy.deepcopy(v) if v is not None else TOP
         if o[0] == "const":
             c = o[1]
-            if c.get("val") is not None:
+            prim = (c.get("ty") or "") in ("usize", "u8", "u16", "u32", "u64", "u128", "isize", "i8", "i16", "i32", "i64", "i128", "bool", "char")
+            if c.get("val") is not None and (prim or "def" not in c or c["def"] not in self.f.bodies):
+                return Int(c["val"])
+            if c.get("val") is not None and not prim:
+                # a named constant of a wrapper type (RangeFrom<usize>, NonZero<..>): prefer its evaluated initialiser, else the scalar
+                cb = self.f.bodies.get(c["def"])
+                if cb is not None and cb.kind == "const":
+                    if c["def"] not in self._consts:
+                        try:
+                            self._consts[c["def"]] = self.call_body(c["def"], [], 0)
+                        except Unsupported:
+                            self._consts[c["def"]] = None
+                    if self._consts[c["def"]] is not None:
+                        return copy.deepcopy(self._consts[c["def"]])
                 return Int(c["val"])
             if "fn" in c:
                 return ("fn", c["fn"])
@@ -216,6 +232,16 @@ class Interp:
                 except Exception:
                     pass
             if "def" in c:
+                cb = self.f.bodies.get(c["def"])
+                if cb is not None and cb.kind == "const":
+                    # a named constant whose initialiser was dumped: evaluate it (e.g. `const KEY_BYTES: RangeFrom<usize> = 64..`)
+                    if c["def"] not in self._consts:
+                        try:
+                            self._consts[c["def"]] = self.call_body(c["def"], [], 0)
+                        except Unsupported:
+                            self._consts[c["def"]] = None
+                    if self._consts[c["def"]] is not None:
+                        return copy.deepcopy(self._consts[c["def"]])
                 return Tok("const:%s" % c["def"])
             if c.get("repr") == "()":
                 return UNIT
@@ -270,6 +296,8 @@ class Interp:
             return ("adt", v[1], v[2], {i: self.resolve(x, depth + 1) for i, x in v[3].items()})
         if v[0] == "tuple":
             return ("tuple", [self.resolve(x, depth + 1) for x in v[1]])
+        if v[0] == "seq":
+            return ("seq", v[1], [self.resolve(x, depth + 1) for x in v[2]])
         return v
 
     # ------------------------------------------------------------------ execution
@@ -396,8 +424,10 @@ class Interp:
         if k == "agg":
             kind = r[1]
             vals = [self.operand(fid, o) for o in r[2]]
-            if kind[0] in ("tuple", "array"):
+            if kind[0] == "tuple":
                 return ("tuple", vals)
+            if kind[0] == "array":
+                return ("seq", "vec", vals)     # abstract collection (coll.py): arrays can be iterated, indexed by the rules' oracles
             if kind[0] == "adt":
                 if len(kind) > 3 and isinstance(kind[2], str):
                     VARIANT_NAMES[(kind[1], kind[3])] = kind[2]
